@@ -455,12 +455,15 @@ struct C20 : World {
       k.sync_hook = [lp](const char* op, const void* m, int task) { lp->hook(op, m, task); };
       for (int i = 0; i < nframes && !ctx.failed; i++) {
         T->decode_results.push_back(raw_decode(*T, i));
+        if (ctx.verbose) { fprintf(stderr, "    replay decode #%d model %x ->", i, model); for (auto& o : T->last) fprintf(stderr, " %x@%u", o.first, o.second); fprintf(stderr, "   (sent:"); for (auto& q : T->sent[(size_t)i]) fprintf(stderr, " %x@%u", q.first, q.second); fprintf(stderr, ")\n"); }
         for (auto& o : T->last)
           if (!(o.first & model)) { ctx.fail("oracle:service-not-in-set", "sequential replay: decode #%d returned a line of service 0x%x (line %u) although the service set in force (the last add/remove call returned 0x%x) does not contain it", i, o.first, o.second, model); break; }
         if (ctx.failed) break;
         for (auto& sl : T->sent[(size_t)i]) {
           if ((sl.first & model) != sl.first || sl.second == 16 || (model & ~(VBI_SLICED_TELETEXT_B | VBI_SLICED_VPS | VBI_SLICED_WSS_625))) continue;
-          bool found = false; for (auto& o : T->last) if (o.second == sl.second && (o.first & sl.first)) found = true;
+          // a record for the line under another service of the set (a WSS or Caption job added with strict 0 can lock onto
+          // a Teletext waveform) is a matter of signal identification (property C04), not of service-set consistency
+          bool found = false; for (auto& o : T->last) if (o.second == sl.second) { found = true; if (!(o.first & sl.first)) ctx.count("line_identified_as_other_service_of_the_set"); }
           if (!found) { ctx.fail("oracle:service-in-set-not-decoded", "sequential replay: decode #%d did not return line %u (service 0x%x) although the service set in force (0x%x) contains it", i, sl.second, sl.first, model); break; }
         }
       }
